@@ -39,6 +39,8 @@ func runC05(c *core.Ctx) {
 	c05Continuation(c)
 	c05Cursors(c)
 	listQueryEscaped(c, "C05.R5")
+	listingIteratorsRerunnable(c, "C05.R6", []string{"ociclient", "ocifilter", "ocimem", "ociunify", "ocidebug"}, 3)
+	pageLimitIsTheRequestedOne(c, "C05.R7")
 }
 
 // yieldParam returns the consumer parameter (func(...) bool) of fn, if any.
